@@ -64,7 +64,7 @@ type BufPlan struct {
 	Ops       []BOp `json:"ops"`
 }
 
-func genBuffer(seed uint64) *BufPlan {
+func genBuffer(seed uint64, deep bool) *BufPlan {
 	r := core.NewRand(seed, 1)
 	p := &BufPlan{}
 	p.Mode = r.IntN(3)
@@ -77,6 +77,9 @@ func genBuffer(seed uint64) *BufPlan {
 		p.MaxSize = []int{64, 100, 128, 500, 1000, 5000, 20000}[r.IntN(7)]
 	}
 	nops := 5 + r.IntN(60)
+	if deep {
+		nops = 60 + r.IntN(240)
+	}
 	// model of the used length (to draw lengths around the remaining capacity)
 	cur := p.InitCap
 	if cur < 64 {
